@@ -95,7 +95,7 @@ package synchronizer
 //@   preserves @std
 //@   ensures blockchain.storeskept() && core.cfgstable()
 
-//@ pred swf(s *Synchronizer) = s.state != nil && protocol.vswf(s.state) && s.auth != nil && s.auth == s.state.auth && ruleAuth(s.timeoutRules) == s.auth && s.timeoutRules != nil && s.duration != nil && s.leaderRotation != nil && s.sender != nil && s.eventLoop != nil && s.config != nil && s.proposer != nil && consensus.pwf(s.proposer) && s.voter != nil && s.proposer.voter == s.voter && s.timeouts != nil && s.timer.timerDoNotUse != nil && (s.lastTimeout != nil ==> s.voter.lastVotedView >= s.lastTimeout.View)
+//@ pred swf(s *Synchronizer) = s.state != nil && protocol.vswf(s.state) && s.auth != nil && s.auth == s.state.auth && ruleAuth(s.timeoutRules) == s.auth && s.timeoutRules != nil && s.duration != nil && s.leaderRotation != nil && s.sender != nil && s.eventLoop != nil && s.config != nil && s.proposer != nil && consensus.pwf(s.proposer) && s.voter != nil && s.proposer.voter == s.voter && s.voter.auth == s.auth && s.timeouts != nil && s.timer.timerDoNotUse != nil && (s.lastTimeout != nil ==> s.voter.lastVotedView >= s.lastTimeout.View)
 
 // advanceView: the view moves by at most one step, only on the evidence VerifySyncInfo
 // accepted for a view at least the current one, the high QC only moves forward, and the view
@@ -107,5 +107,25 @@ package synchronizer
 //@   ensures [highqc-monotone] s.state.highQC.view >= old(s.state.highQC.view)
 //@   ensures [signalled] s.state.view != old(s.state.view) ==> tracelen(added) > old(tracelen(added)) && istype(traceev(added, 0, old(tracelen(added))), hotstuff.ViewChangeEvent) && as(traceev(added, 0, old(tracelen(added))), hotstuff.ViewChangeEvent).View == s.state.view
 //@   ensures [not-signalled-otherwise] s.state.view == old(s.state.view) ==> tracelen(added) == old(tracelen(added))
+//@   ensures [inv] swf(s)
 //@   modifies s.state.view, s.state.highQC, s.lastTimeout, s.timer, trace(added)
+//@   preserves @std
+
+//@ interface TimeoutRuler.RemoteTimeoutRule
+//@   preserves @std
+//@   ensures blockchain.storeskept() && core.cfgstable()
+
+// OnRemoteTimeout: a timeout whose view signature verified is handed to the collector exactly
+// once (ghost trace `tadd`, recorded at the call of the collector's add), whatever the first
+// view advance did; a rejected one is logged and not collected. The view moves forward by at
+// most two steps (one per advanceView) and the synchronizer stays well formed.
+//@ func (*Synchronizer).OnRemoteTimeout property C08,C07
+//@   requires swf(s) && hotstuff.genesisBlock != nil && blockchain.hashdet() && s.state.view < 18446744073709551614
+//@   requires s.timeouts.config != nil && nodup(s.timeouts.timeouts)
+//@   ghost at call add :: emit tadd(op1.ID, op1.View)
+//@   ghost at call Infof :: emit tlog(1)
+//@   ensures [collected-once-or-rejected] (tracelen(tadd) == old(tracelen(tadd)) + 1 && traceat(tadd, 0, old(tracelen(tadd))) == timeout.ID && traceat(tadd, 1, old(tracelen(tadd))) == timeout.View && tracelen(tlog) == old(tracelen(tlog))) || (tracelen(tadd) == old(tracelen(tadd)) && tracelen(tlog) == old(tracelen(tlog)) + 1)
+//@   ensures [view-forward] s.state.view >= old(s.state.view) && s.state.view <= old(s.state.view) + 2
+//@   ensures [inv] swf(s)
+//@   modifies s.state.view, s.state.highQC, s.lastTimeout, s.timer, s.timeouts.timeouts, s.timeouts.timeouts[*], trace(added), trace(tadd), trace(tlog), alloc
 //@   preserves @std
